@@ -128,7 +128,12 @@ def parse_props(arg):
     keep = []
     for t in toks:
         if t.startswith('props='):
-            props = [p for p in t[6:].split(',') if p]
+            # `C04!` = this unit speaks for C04 through its SAFETY obligations only (overflow, bounds, unwrap, callee
+            # preconditions), not through its functional clauses: a helper on the attacker's path computing a wrong value is
+            # not a totality violation
+            raw = [p for p in t[6:].split(',') if p]
+            props = [p.rstrip('!') for p in raw]
+            flags.update('safety_only:' + p.rstrip('!') for p in raw if p.endswith('!'))
         elif t in ('assumed', 'bounded', 'nowrap'):
             flags.add(t)
         else:
@@ -182,6 +187,7 @@ def load_contracts(cdir, only=None):
                         unit = Unit(file, path, props, 'assumed' in flags, d.lineno)
                         unit.bounded = 'bounded' in flags
                         unit.nowrap = 'nowrap' in flags
+                        unit.safety_only = sorted(f.split(':', 1)[1] for f in flags if f.startswith('safety_only:'))
                         fc['units'].append(unit)
                     elif d.name in ('ret', 'sig', 'attr', 'loop', 'at', 'rewrite'):
                         if unit is None:
@@ -551,7 +557,7 @@ def annotate_tree(repo_src, contracts_dir, spec_dir, out_src, only=None, specs=N
         for u in recs:
             r = ranges.get(u.uid)
             index['units'].append({
-                'uid': u.uid, 'file': rel, 'path': u.path, 'props': u.props, 'assumed': u.assumed,
+                'uid': u.uid, 'file': rel, 'path': u.path, 'props': u.props, 'safety_only': getattr(u, 'safety_only', []), 'assumed': u.assumed,
                 'bounded': getattr(u, 'bounded', False), 'degraded': getattr(u, 'degraded', 0),
                 'degrade_reason': getattr(u, 'degrade_reason', None), 'ident': u.ident(),
                 'orig_sha256': u.orig_sha, 'orig_lines': u.orig_lines, 'splices': u.n_splices,
